@@ -112,6 +112,44 @@ func shortStack(b []byte) string {
 	return strings.Join(out, "\n")
 }
 
+// errWouldBlock is what a live transport answers when it is asked for bytes
+// the peer has not sent: on a real connection that Read would block.
+var errWouldBlock = errors.New("harness: the peer has sent nothing more — this Read would block on a live connection")
+
+// liveSrc is a transport that does not end: after its data it records every
+// further Read as "would block" and fails it.
+type liveSrc struct {
+	*tx.Src
+	blocked int
+}
+
+func (l *liveSrc) Read(p []byte) (int, error) {
+	if l.Src.Pos == len(l.Src.Data) && len(p) > 0 {
+		l.blocked++
+		l.Src.Reads++
+		return 0, errWouldBlock
+	}
+	return l.Src.Read(p)
+}
+
+// completeHead returns the length of the handshake head b begins with (lines
+// end in LF with one optional CR before it; the head ends with the first
+// empty line) and whether b holds a complete one.
+func completeHead(b []byte) (int, bool) {
+	lines, end, complete := respgen.SplitLines(b)
+	// a blank first line is not a head: a recipient may as well keep waiting for one
+	if complete && (len(lines) < 2 || lines[0] == "") {
+		return end, false
+	}
+	return end, complete
+}
+
+// announcesBody: the head carries a Content-Length or Transfer-Encoding line.
+func announcesBody(head []byte) bool {
+	l := bytes.ToLower(head)
+	return bytes.Contains(l, []byte("content-length")) || bytes.Contains(l, []byte("transfer-encoding"))
+}
+
 // capRec is a recording destination that refuses an implausible number of
 // Write calls (a reply loop that never ends).
 type capRec struct {
@@ -1003,6 +1041,7 @@ func acceptProtocol(p string) bool {
 }
 
 type reqOpts struct {
+	live     bool // the transport delivers exactly the request head and then does not end (further Reads "would block")
 	debug    bool // raw upgrader wrapped in wsutil.DebugUpgrader with both callbacks set
 	selector int  // HTTP upgrader: 0 harness predicate, 1 ws.SelectFromSlice (short list), 2 ws.SelectFromSlice (map form), 3 ws.SelectEqual
 	http     bool
@@ -1027,6 +1066,7 @@ func decodeReqOpts(data []byte) (o reqOpts, req []byte) {
 	// 0x60 = which subprotocol selector the HTTP upgrader gets
 	o.debug = data[2]&0x10 != 0
 	o.selector = int(data[2] >> 5 & 3)
+	o.live = data[2]&0x80 != 0
 	return o, data[reqCtl:]
 }
 
@@ -1059,6 +1099,9 @@ func rawUpgrader(o reqOpts, k byte, calls *int) ws.Upgrader {
 		OnHeader:        func(key, value []byte) error { *calls += 1 + len(string(key)) + len(string(value)); return nil },
 		OnBeforeUpgrade: func() (ws.HandshakeHeader, error) {
 			*calls++
+			if o.selector == 3 { // (the selector bits pick the subprotocol selector of the HTTP upgrader only)
+				return nil, ws.RejectConnectionError(ws.RejectionStatus(403), ws.RejectionReason("c15 says no"))
+			}
 			return ws.HandshakeHeaderString("X-C15-Before: yes\r\n"), nil
 		},
 	}
@@ -1147,6 +1190,9 @@ func targetRequest(data []byte) error {
 }
 
 func runRequest(o reqOpts, k byte, req []byte) error {
+	if o.live {
+		return runRequestLive(o, k, req)
+	}
 	src := tx.NewSrc(req, o.chunks)
 	src.EOFWithData = o.eofData
 	rec := newRec(len(req))
@@ -1175,6 +1221,57 @@ func runRequest(o reqOpts, k byte, req []byte) error {
 	w := tx.NewHijackable(src, rec, o.wbuf)
 	_, _, _, _ = u.Upgrade(r, w)
 	return srcOracle("HTTPUpgrader.Upgrade", src, rec)
+}
+
+// runRequestLive: the peer has sent a request head and now waits for the
+// answer on a connection that stays open. Whatever the outcome, once the head
+// is complete the upgrader must not ask the transport for more: that Read
+// would block forever (the peer sends nothing before it has the answer).
+func runRequestLive(o reqOpts, k byte, req []byte) error {
+	end, complete := completeHead(req)
+	if complete {
+		req = req[:end]
+	}
+	src := &liveSrc{Src: tx.NewSrc(req, o.chunks)}
+	rec := newRec(len(req))
+	calls := 0
+	what := "Upgrader.Upgrade"
+	switch {
+	case o.http:
+		what = "HTTPUpgrader.Upgrade"
+		r, err := http.ReadRequest(bufio.NewReader(src))
+		if err != nil {
+			hx.Class("request/HTTPUpgrader/refused-by-net-http")
+			return nil
+		}
+		src.blocked = 0 // net/http's own reading is not the subject
+		u := httpUpgrader(o, k, &calls)
+		_, _, _, _ = u.Upgrade(r, tx.NewHijackable(src, rec, o.wbuf))
+	case o.debug:
+		what = "DebugUpgrader.Upgrade"
+		seen := 0
+		du := wsutil.DebugUpgrader{
+			Upgrader:   rawUpgrader(o, k, &calls),
+			OnRequest:  func(p []byte) { seen += len(string(p)) },
+			OnResponse: func(p []byte) { seen += len(string(p)) },
+		}
+		_, _ = du.Upgrade(tx.RW{Reader: src, Writer: rec})
+		if announcesBody(req) {
+			// the wrapper reads the body the head announces (net/http semantics): waiting for it is not a defect
+			hx.Class("request/live/open-debug-wrapper-awaits-announced-body")
+			complete = false
+		}
+	default:
+		u := rawUpgrader(o, k, &calls)
+		_, _ = u.Upgrade(tx.RW{Reader: src, Writer: rec})
+	}
+	if complete {
+		hx.Class("request/live/complete-head")
+		if src.blocked > 0 {
+			return fmt.Errorf("%s asked the transport for more bytes %d time(s) after the complete request head (%d bytes) had been delivered: on a live connection it blocks forever (response written so far: %q)", what, src.blocked, len(req), rec.Bytes())
+		}
+	}
+	return srcOracle(what, src.Src, rec)
 }
 
 // ---------------------------------------------------------------------------
@@ -1236,6 +1333,10 @@ type lazyPeer struct {
 	wlimit  int
 	wrun    bool
 	src     *tx.Src
+
+	live         bool // deliver exactly the head, then stay silent
+	liveSrc      *liveSrc
+	headComplete bool
 }
 
 func (p *lazyPeer) Write(b []byte) (int, error) {
@@ -1252,6 +1353,16 @@ func (p *lazyPeer) Read(b []byte) (int, error) {
 	if p.src == nil {
 		p.src = tx.NewSrc(p.answer(p.written), p.sizes)
 		p.src.EOFWithData = p.eofData
+		if p.live {
+			if end, ok := completeHead(p.src.Data); ok {
+				p.src.Data = p.src.Data[:end]
+				p.headComplete = true
+			}
+			p.liveSrc = &liveSrc{Src: p.src}
+		}
+	}
+	if p.liveSrc != nil {
+		return p.liveSrc.Read(b)
 	}
 	return p.src.Read(b)
 }
@@ -1282,6 +1393,7 @@ func (p *lazyPeer) oracle(what string) error {
 }
 
 type respOpts struct {
+	live    bool // the fake server delivers exactly the response head and then stays silent (further Reads "would block")
 	dial    bool // through ws.Dialer.Dial (NetDial returns the fake server) instead of Dialer.Upgrade
 	debug   bool // through wsutil.DebugDialer.Dial with both callbacks set
 	cfg     int
@@ -1301,6 +1413,12 @@ func decodeRespOpts(data []byte) (o respOpts, resp []byte) {
 	o.status = a&0x20 == 0
 	o.dial = a&0x40 != 0
 	o.debug = a&0x80 != 0
+	// both bits set (EOF-with-data and "no OnStatusError", neither of which
+	// means anything on a transport that does not end) select the live mode
+	o.live = a&0x30 == 0x30
+	if o.live {
+		o.eofData = false
+	}
 	o.chunks = chunkPlan(data[1])
 	return o, data[respCtl:]
 }
@@ -1338,7 +1456,7 @@ func targetResponse(data []byte) error {
 
 func runResponse(o respOpts, resp []byte) error {
 	cfg := dialCfgs[o.cfg]
-	peer := &lazyPeer{sizes: o.chunks, eofData: o.eofData, wlimit: 10000}
+	peer := &lazyPeer{sizes: o.chunks, eofData: o.eofData, wlimit: 10000, live: o.live}
 	peer.answer = func(req []byte) []byte {
 		if !bytes.Contains(resp, []byte(acceptMark)) {
 			return resp
@@ -1375,7 +1493,10 @@ func runResponse(o respOpts, resp []byte) error {
 		} else {
 			_, br, _, _ = d.Dial(context.Background(), dialURL.String())
 		}
-		if br != nil {
+		if e := liveOracle(o, peer, what, resp); e != nil {
+			return e
+		}
+		if br != nil && !o.live {
 			// what the server sent right after its head has to be readable from the returned buffer
 			_, _ = io.Copy(io.Discard, io.LimitReader(br, 1<<20))
 			if !o.debug {
@@ -1388,7 +1509,30 @@ func runResponse(o respOpts, resp []byte) error {
 	if br != nil {
 		ws.PutReader(br)
 	}
+	if e := liveOracle(o, peer, "Dialer.Upgrade", resp); e != nil {
+		return e
+	}
 	return peer.oracle("Dialer.Upgrade")
+}
+
+// liveOracle: the server has sent a complete response head and now waits; the
+// dialer must not read on, whatever it makes of the head.
+func liveOracle(o respOpts, peer *lazyPeer, what string, resp []byte) error {
+	if !o.live || peer.liveSrc == nil || !peer.headComplete {
+		return nil
+	}
+	if o.debug && (!responseShape(resp) || announcesBody(resp)) {
+		// the debug wrapper parses the response with net/http and reads the
+		// body a non-101 response has (to its announced length or to the end
+		// of the connection): waiting for it is HTTP semantics, not a defect
+		hx.Class("response/live/open-debug-wrapper-awaits-body")
+		return nil
+	}
+	hx.Class("response/live/complete-head")
+	if peer.liveSrc.blocked > 0 {
+		return fmt.Errorf("%s asked the transport for more bytes %d time(s) after the complete response head (%d bytes) had been delivered: on a live connection it blocks forever", what, peer.liveSrc.blocked, len(peer.src.Data))
+	}
+	return nil
 }
 
 // ---------------------------------------------------------------------------
